@@ -8,6 +8,20 @@ VERIF = Path(__file__).resolve().parents[1]
 
 # id -> (level, technique, text, note, design_ref)
 CHECKS = {
+    "C01": (
+        "model_checking",
+        "exhaustive small-scope enumeration of abstract pages (traces of a line-event scope machine) replayed against the real compiler",
+        "Every abstract single-item page over 16 kind/priority forms x 4 identity forms x bodies of 1..N words from a 10-word alphabet made of prefix look-alikes x 4 tail shapes, and every ordered pair (quick) / pair and triple (thorough) of a 24-item reduced alphabet in 5 layouts, is rendered, compiled by walk_zorg_page and compared field by field (kind, priority, body, line, ZID, create and modify date, count, order) with the notes the abstract page denotes. All traces of the model within the bound are replayed on the implementation, so there is no model/code gap inside the bound.",
+        "Trusts the reference model mc/models/zo_model.py and the vetted alphabets; generated parser as committed; larger pages / other words only by the small-scope hypothesis.",
+        "§4 C01",
+    ),
+    "C02": (
+        "model_checking",
+        "exhaustive enumeration of all legal section skeletons x decorated-scope subsets, replayed against the real compiler and judged by a scope-stack model",
+        "All legal H1-H4 header sequences up to 5 (quick) / 6 (thorough) headers, times every subset of {title, headers} carrying scope-unique tag, link, shared-key property and date, with always-decorated later header line and in-block comments, are compiled; every note's tags, links, properties, date and section path must equal the scope-stack model's. A leak or a lost inheritance at any nesting shape within the bound is found, not sampled.",
+        "One decoration pattern per scope (placement enumerated exhaustively, spelling fixed per seed); trusts mc/models/zo_model.py.",
+        "§4 C02",
+    ),
     "C07": (
         "model_checking",
         "exhaustive enumeration of the finite successor/allocation chain + explicit-state BFS over allocation histories on the real ZIDManager",
